@@ -273,8 +273,10 @@ def check_call(R, pair, reqs, case, all_valid_expected=False):
             continue
         t = res[i]
         if not t:
-            R.fail("read of an existing address is falsy", c, {"error": t.error}, {"value": untag(e["value"]), "type": e["type"]},
-                   f"read:falsy:{where}")
+            big = e["count"] > 65535 or (e["elem_type"] == "BOOL" and e["count"] > 32 * 65535 - 32)
+            R.fail("read of an existing address is falsy", c, {"error": t.error},
+                   {"value": "(%d elements)" % e["count"] if big else untag(e["value"]), "type": e["type"]},
+                   "read:falsy:count>65535" if big else f"read:falsy:{where}")
         elif not RV.same_value(e["value"], t.value):
             R.fail("read returned a value the controller does not hold", c, {"value": t.value, "type": t.type},
                    {"value": untag(e["value"]), "type": e["type"]}, f"read:value:{where}")
@@ -350,6 +352,13 @@ def scenario_calls(R, seed, flavour, n_calls):
                 rng.shuffle(reqs)
             if rng.random() < 0.2:                                       # invalid requests mixed in (correspondence; C03)
                 bad = [b for _, b in S.gen_invalid_requests(rng, sc, rng.randint(1, 3))]
+                reqs = reqs + bad
+                rng.shuffle(reqs)
+            if rng.random() < 0.15:                                      # malformed strings: parse errors, unbuildable requests
+                bad = [mutate_request(rng, r) for r in rng.sample(reqs, min(len(reqs), rng.randint(1, 3)))]
+                bad += rng.sample(["", ".", "{", "}", "[", "x{70000}", reqs[0] + "[abc]", reqs[0] + "{65536}", reqs[0] + "[-1]",
+                                   reqs[0] + "{x}", "Program:", "Program:.x"], 2)
+                R.count("malformed_in_read", len(bad))
                 reqs = reqs + bad
                 rng.shuffle(reqs)
             check_call(R, pair, reqs, dict(base, requests=reqs))
@@ -464,8 +473,12 @@ def sweeps(R, thorough):
                 for pol in pols:
                     cs = counts
                     if pol in ((1,), (2,)) and large:
+                        if tname != "SINT":
+                            continue
                         cs = [counts[0], counts[len(counts) // 2], counts[-1]]
-                    size_sweep(R, large, tname, cs, pol, f"{tname}@{centre}/{pol}")
+                    elif pol in ((1,), (2,), (7,)):
+                        cs = counts[::3] + [counts[-1]]
+                    size_sweep(R, large, tname, cs, pol, f"{tname}@{centre}/{pol}", lists=4 if pol == () else 2)
             continue
         # quick tier: the whole window without a fragment policy for every type; the policies on a few sizes
         for tname, es in types:
@@ -487,6 +500,23 @@ def sweeps(R, thorough):
             size_sweep(R, large, "INT", [c // 2 + 1], (1,), f"INT@{centre}/(1,)", lists=1)
         else:
             size_sweep(R, large, "SINT", [c + 1], (2,), f"SINT@{centre}/(2,)", lists=1)
+
+
+def count_limit(R):
+    """an array of more than 65535 elements: {65535} is read; {65536} cannot be expressed in the UINT
+    element count of Read Tag (known finding)"""
+    sc, rng = make_scenario(11, "large_fo", sized=[("SINT", 66000)], n_tags=2)
+    sc.cfg["rev_major"] = 32
+    pair = Pair(sc)
+    try:
+        g = [g for g in sc.tags if g["name"].startswith("Big")][0]
+        small = [sc.full_name(t) for t in sc.data_tags() if not S._hidden_tag(t) and not t["name"].startswith("Big")][0]
+        base = {"kind": "count_limit", "count": 66000}
+        for reqs in ([g["name"] + "{65535}"], [g["name"] + "{65536}"], [small, g["name"] + "[3]{65990}"]):
+            check_call(R, pair, reqs, dict(base, requests=reqs), all_valid_expected=True)
+            R.count("count_limit", reqs[-1].split("{")[1])
+    finally:
+        pair.close()
 
 
 # ------------------------------------------------------------------ component: _parse_tag_request
@@ -645,6 +675,14 @@ def run_case(R, c):
             check_call(R, pair, c["requests"], {k: v for k, v in c.items() if k not in ("index", "request")})
         finally:
             pair.close()
+    elif kind == "count_limit":
+        sc, _ = make_scenario(11, "large_fo", sized=[("SINT", c.get("count", 66000))], n_tags=2)
+        sc.cfg["rev_major"] = 32
+        pair = Pair(sc)
+        try:
+            check_call(R, pair, c["requests"], {k: v for k, v in c.items() if k not in ("index", "request")})
+        finally:
+            pair.close()
     elif kind == "sweep":
         sc, _ = make_scenario(7, "large_fo" if c["large"] else "std_fo", sized=[(c["type"], n) for n in c["counts"]],
                               frag=c["frag"], n_tags=3)
@@ -698,7 +736,7 @@ def run(R, escalate=False):
     run_corpus(R)
     n_scen, n_calls = (1500, 14) if thorough else (110, 9)
     n_exh = 60 if thorough else 8
-    budget = (900 if thorough else 55)
+    budget = (600 if thorough else 50)
     for k in range(n_scen):
         if time.time() - t0 > budget:
             R.notes.append(f"scenario stream stopped after {k} scenarios (time budget)")
@@ -710,6 +748,7 @@ def run(R, escalate=False):
             break
         exhaustive_project(R, sub_seed(R, "exhaustive", k), ["default", "std_fo", "old_fw", "micro800", "frag_small"][k % 5])
     sweeps(R, thorough)
+    count_limit(R)
     parsetag_stream(R, 40 if thorough else 6, 300 if thorough else 160)
     readreply_stream(R, 40 if thorough else 5, 120 if thorough else 70)
     R.notes.append(f"harness wall {time.time() - t0:.1f}s")
